@@ -166,8 +166,9 @@ def run(rep, drv):
 				errs = []
 				if not close(ds.mean, dist.mean(), 1e-9) or not close(ds.standard_deviation, dist.std(), 1e-9):
 					errs.append('reported mean/sd (%r,%r) are not those of the distribution object (%r,%r)' % (ds.mean, ds.standard_deviation, dist.mean(), dist.std()))
-				for x in (dist.ppf(0.1), dist.ppf(0.5), dist.ppf(0.95)):
-					if not close(ds.cdf(x), dist.cdf(x), 1e-12): errs.append('cdf(%r) mismatch' % x)
+				# ... at support points, between them (a discrete cdf is a step function) and outside the support
+				for x in (dist.ppf(0.1), dist.ppf(0.5), dist.ppf(0.95), dist.ppf(0.5) + 0.5, dist.ppf(0.1) - 0.75, dist.ppf(0.95) + 0.25, dist.ppf(0.3) + 0.125, dist.ppf(0.001) - 1.5):
+					if not close(ds.cdf(x), dist.cdf(x), 1e-12): errs.append('cdf(%r) = %r, the distribution object gives %r' % (x, ds.cdf(x), dist.cdf(x)))
 				if ty == 'UD':
 					lo, hi = spec['lo'], spec['hi']
 					if not close(ds.mean, (lo + hi) / 2) or not close(ds.standard_deviation ** 2, ((hi - lo + 1) ** 2 - 1) / 12): errs.append('discrete uniform moments wrong')
